@@ -198,12 +198,15 @@ func stepBudget(sc *Scenario) int {
 	n += sc.ShutdownAfter
 	// every Read call is a step of the reader (the first thorough run raised a false liveness
 	// alarm on two 50 KiB frames arriving in 12 548 reads of 1-16 bytes: 11 000 steps allowed)
-	n += 6*len(sc.Chunks) + 6*len(sc.EmptyReads)
+	// (and an implementation that hands every chunk it reads to another goroutine spends a
+	// handful of steps per read where the pinned one spends one: agent-written refactoring
+	// ABS-10 raised the same false alarm with 6 steps per read)
+	n += 24*len(sc.Chunks) + 24*len(sc.EmptyReads)
 	tot := 0
 	for i := range sc.Frames {
 		tot += sc.Frames[i].Size
 	}
-	n += 6 * (tot/2048 + 1)
+	n += 24 * (tot/256 + 1)
 	return n
 }
 
